@@ -712,6 +712,9 @@ func TestVerif_C01(t *testing.T) {
 			}
 			os.RemoveAll(dir)
 		}
+		if largeHist {
+			work = 0 // the small histories are divided as if they were alone
+		}
 		os.RemoveAll(hbase)
 	}
 }
